@@ -156,12 +156,18 @@ func sanitize(s string) string {
 
 // WriteReplay stores a minimised violation under /verif/replays/<prop>/.
 func WriteReplay(prop, tier string, base uint64, v Violation, execs, occ int) (string, error) {
+	return WriteReplayDigest(prop, tier, base, v, execs, occ, "")
+}
+
+// WriteReplayDigest is WriteReplay with the event-log digest of the minimised
+// scenario's execution, which a later replay must reproduce.
+func WriteReplayDigest(prop, tier string, base uint64, v Violation, execs, occ int, digest string) (string, error) {
 	dir := filepath.Join(Root(), "replays", prop)
 	if err := os.MkdirAll(dir, 0755); err != nil {
 		return "", err
 	}
 	rf := ReplayFile{Schema: 1, Property: prop, Tier: tier, BaseSeed: base, Class: v.Class, Signature: v.Signature,
-		Detail: v.Detail, Occurrences: occ, Minimised: execs > 1, MinimiserExecs: execs, Scenario: v.Scenario}
+		Detail: v.Detail, Occurrences: occ, Minimised: execs > 1, MinimiserExecs: execs, EventLogSHA256: digest, Scenario: v.Scenario}
 	b, err := json.MarshalIndent(rf, "", " ")
 	if err != nil {
 		return "", err
@@ -191,6 +197,13 @@ func replayFile(props map[string]PropEngine, path string) int {
 	want := rf.Class + "|" + rf.Signature
 	if hit := find(vs, want); hit != nil {
 		fmt.Printf("reproduced: %s\n", trunc(hit.Detail, 2000))
+		if rf.EventLogSHA256 != "" && digest != "" {
+			if rf.EventLogSHA256 == digest {
+				fmt.Println("event log digest matches the recorded execution: the replay is exact")
+			} else {
+				fmt.Println("note: same violation, but the event log digest differs from the recorded execution (the tree or the harness changed since it was recorded)")
+			}
+		}
 		fmt.Printf("VIOLATION property=%s replay=%s\n", rf.Property, path)
 		return ExitViolation
 	}
